@@ -196,15 +196,29 @@ func runStop(p stParams) func(rc *core.RunCtx) {
 			}
 		}
 
-		// phase 1: build the tree, let it settle, ask every node for a report
-		env.Spawn(root)
-		simrt.WaitQuiet(time.Hour)
-		for _, id := range ids {
-			m := env.NewMsg("rep1", 0)
-			m.Op = cReport
-			env.Send("rep1", id, m, nil)
+		// phase 1: build the tree, let it settle, ask every node for a report.
+		// In "early" runs (single actor) the clients start while the actor is
+		// still being spawned: what they send reaches an inbox that is not yet
+		// started (or nobody); their Stop/Poison calls wait until it is registered.
+		early := p.focus == "C07" && maxDepth == 0 && g.Bool(0.3)
+		waitRegistered := func() {}
+		if early {
+			rc.Scen("clients start while %s is being spawned", root.FullID())
+			simrt.Go("spawner", func() { env.Spawn(root) })
+			waitRegistered = func() {
+				// the Producer runs right after the id was entered into the registry
+				simrt.Block("root-registered", func() bool { return env.actors[root.FullID()] != nil })
+			}
+		} else {
+			env.Spawn(root)
+			simrt.WaitQuiet(time.Hour)
+			for _, id := range ids {
+				m := env.NewMsg("rep1", 0)
+				m.Op = cReport
+				env.Send("rep1", id, m, nil)
+			}
+			simrt.WaitQuiet(time.Hour)
 		}
-		simrt.WaitQuiet(time.Hour)
 		phase2 := env.tick()
 
 		// phase 2: concurrent stops, poisons, sends
@@ -229,8 +243,10 @@ func runStop(p stParams) func(rc *core.RunCtx) {
 					case 0:
 						env.Send(fmt.Sprintf("c%d", c), o.target, o.msg, nil)
 					case 1:
+						waitRegistered()
 						env.watchCall("stop", fmt.Sprintf("c%d", c), o.target)
 					case 2:
+						waitRegistered()
 						env.watchCall("poison", fmt.Sprintf("c%d", c), o.target)
 					case 3:
 						simrt.Yield(simrt.OpUser)
